@@ -250,7 +250,8 @@ class IntSub(int):
 
 # 10**4400 has more decimal digits than the interpreter's int -> str conversion limit (4300)
 INT_OPERANDS_TINY = lambda p: [0, 1, -1, p, p + 1, -p - 1, 2 * p + 3, 2 ** 400, -p, 2 * p, p * p, -3 * p, 5 * p ** 3,  # noqa: E731
-                               IntSub(p + 2), IntSub(3), 10 ** 4400 + 3, -(10 ** 4400) - 1]
+                               IntSub(p + 2), IntSub(3), 10 ** 4400 + 3, -(10 ** 4400) - 1,
+                               2 ** 61 - 1, 2 ** 61, 2 ** 61 + 2]  # equal hash() as 0, 1, 3
 
 
 def jint(v):
